@@ -138,7 +138,7 @@ static C07: Check = Check {
 static C10: Check = Check {
     property: "C10",
     level: "exploration",
-    rule: "one run = 12..31 deterministic operations (KeyGen/SkToPk across the ikm, key_info and DST size limits; create_generators for counts 0..=64, 255..257 (1000+ thorough) and plain / blind / BLIND_ / empty / arbitrary api_ids; messages_to_scalars; hash_to_scalar across the DST limit; Sign with L up to 257 and headers across 255/256; BlindSign on a fixed request and without one; accept/reject decisions of verify, proof_verify, blind_sign(request), verify_blind_sign, blind_proof_verify on honest and singly mutated artefacts) spread over 1, 2-4, 5-8 or 16 nodes and interleaved by the scheduler with tick preemption; each result is compared with the executable spec model (octets and Ok/Err) and, for a sample, with the same operation alone on a fresh thread; the model must first reproduce all 110 fixture vectors; a case = one operation",
+    rule: "one run = 12..31 deterministic operations (KeyGen/SkToPk across the ikm, key_info and DST size limits; create_generators for counts 0..=64, 255..257 (1000+ thorough) and plain / blind / BLIND_ / empty / arbitrary api_ids; messages_to_scalars; hash_to_scalar across the DST limit; Sign with L up to 257 and headers across 255/256; BlindSign on a fixed request and without one; accept/reject decisions of verify, proof_verify, blind_sign(request), verify_blind_sign, blind_proof_verify on honest and singly mutated artefacts) spread over 1, 2-4, 5-8 or 16 nodes and interleaved by the scheduler with tick preemption; plus, in every run, create_generators for one count of the complete range 0..=64 (0..=1100 thorough) per suite, walking through the whole range with the run index; each result is compared with the executable spec model (octets and Ok/Err) and, for a sample, with the same operation alone on a fresh thread; the model must first reproduce all 110 fixture vectors; a case = one operation",
     quick_runs: 160,
     thorough_runs: 1500,
     run: scen_conform::run_c10,
